@@ -54,6 +54,24 @@ FUNCS = {
                       defined_in='C10Surf.lean', targets=['sum_rect', 'csum_rect', 'haar_x', 'haar_y']),
     'flat_to_pos': dict(tie=T + 'FlatToPos', theorems=['Mahotas.cscalar_flat_to_pos_eq_model'],
                         words=['flatToPos'], defined_in='C08.lean', targets=['flat_to_pos']),
+    'spline_coeff': dict(tie=T + 'Spline', theorems=['Mahotas.cscalar_spline_coeff_eq_model'],
+                         words=['splineCoeff'], defined_in='C18.lean', targets=['spline_coeff']),
+    'dt_intersect': dict(tie=T + 'DtIntersect', theorems=['Mahotas.cscalar_dt_intersect_eq_model'],
+                         words=['sInt'], defined_in='C05.lean', targets=['dt_intersect']),
+    'fast_positions': dict(tie=T + 'FastPositions', theorems=['Mahotas.cscalar_fast_positions_eq_model'],
+                           words=['fastPositions'], defined_in='C01.lean', targets=['fast_positions']),
+    'union_find': dict(tie=T + 'UnionFind', theorems=['Mahotas.cscalar_uf_find_eq_model', 'Mahotas.cscalar_uf_compress_eq_model',
+                                                      'Mahotas.cscalar_uf_join_eq_model'],
+                       words=['labelModel', 'labelAddr', 'scanPixel', 'scanPixelAddr', 'parentsAddr'], defined_in='C03.lean',
+                       targets=['uf_find', 'uf_compress', 'uf_join']),
+    'fast_row': dict(tie=T + 'FastRow', theorems=['Mahotas.cscalar_fast_row_dy_eq_model', 'Mahotas.cscalar_fast_row_n_eq_model'],
+                     words=['fastRow', 'fastErodeRow'], defined_in='C01.lean', targets=['fast_row_dy', 'fast_row_n']),
+    'rank_currank': dict(tie=T + 'CurRank', theorems=['Mahotas.cscalar_rank_currank_eq_model'],
+                         words=['curRankG'], defined_in='C07.lean', targets=['rank_currank']),
+    'find2d_marks': dict(tie=T + 'Find2d', theorems=['Mahotas.cscalar_find2d_marks_eq_model'],
+                         words=['findMarks', 'matchesAt'], defined_in='C07.lean', targets=['find2d_marks']),
+    'find2d_accesses': dict(tie=T + 'Find2dAcc', theorems=['Mahotas.cscalar_find2d_accesses_eq_model'],
+                            words=['find2dAccesses'], defined_in='C10.lean', targets=['find2d_accesses']),
     'lbp_map': dict(tie=T + 'Lbp', theorems=['Mahotas.cscalar_roll_right_eq_model', 'Mahotas.cscalar_lbp_map_eq_model'],
                     words=['rollRight32', 'lbpMap32', 'lbpMapLoop'], defined_in='C10Misc.lean', targets=['roll_right', 'lbp_map']),
 }
@@ -113,6 +131,7 @@ PRELUDE = r'''
 #include <algorithm>
 #include <cstdint>
 #include <cstdlib>
+#include <cmath>
 typedef long npy_intp;
 struct gil_release { };
 namespace numpy {
@@ -201,6 +220,60 @@ def _unit(srcs: dict) -> str:
         s.append('extern "C" unsigned long cs_roll_right(unsigned long v, long points) { return roll_right((npy_uint32)v, (int)points); }')
         if 'lbp_map' in have:
             s.append('extern "C" unsigned long cs_lbp_map(unsigned long v, long points) { return map((npy_uint32)v, (int)points); }')
+    if 'spline_coeff' in have:
+        # the selected `switch (order)` statement as it stands, around one slot of `result`
+        s.append('extern "C" double cs_spline_coeff(long order_, double y, double r0) { typedef double FT; const int order = (int)order_; '
+                 'double result[1] = { r0 }; const int hh = 0; ' + srcs['spline_coeff']['slice'] + ' return result[0]; }')
+    if 'dt_intersect' in have:
+        s.append('#include <vector>')
+        s += srcs['dt_intersect'].get('helpers', [])
+        s.append('extern "C" double cs_dt_intersect(double fq, long q_, double fv, long vk) { typedef double BaseType; const int q = (int)q_; '
+                 'const int stride = 1; int k = 0; int v[1] = { (int)vk }; std::vector<double> fvec((q > vk ? q : vk) + 1); double* f = &fvec[0]; '
+                 'f[q] = fq; f[vk] = fv; double s = 0; ' + srcs['dt_intersect']['slice'] + ' return s; }')
+    if 'fast_positions' in have:
+        s.append('#include <vector>')
+        s.append('struct cs_bc { const long* p; long d0, d1; long dim(int k) const { return k ? d1 : d0; } '
+                 'bool at(long y, long x) const { return p[y * d1 + x] != 0; } };')
+        s.append('extern "C" long cs_fast_positions(long Nx_, long By_, long Bx_, const long* bc, long* out) { const numpy::index_type Nx = Nx_; '
+                 'cs_bc Bc = { bc, By_, Bx_ }; ' + srcs['fast_positions']['slice'] +
+                 ' for (size_t i = 0; i < positions.size(); ++i) out[i] = positions[i]; return (long)positions.size(); }')
+    if 'uf_find' in have:
+        s.append('#include <vector>')
+        s.append('namespace {')
+        for k in ('uf_find', 'uf_compress', 'uf_join'):
+            if k in have:
+                s.append(srcs[k]['text'])
+        s.append('}')
+        s.append('extern "C" long cs_uf(int which, int n, const long* in, long i, long j, long* out) { std::vector<int> d(in, in + n); d.push_back(0); long r = 0; '
+                 'if (which == 0) r = find(&d[0], (int)i);' + (' else if (which == 1) compress(&d[0], (int)i);' if 'uf_compress' in have else '') +
+                 (' else join(&d[0], (int)i, (int)j);' if 'uf_join' in have else '') + ' for (int k = 0; k < n; ++k) out[k] = d[k]; return r; }')
+    if 'fast_row_n' in have:
+        s.append('#include <vector>')
+        s.append('namespace {')
+        s += srcs['fast_row_n'].get('helpers', [])
+        s.append('}')
+        s.append('extern "C" long cs_fast_row(long which, long y_, long Ny_, long Nx_, long pdy, long pdx) { const numpy::index_type y = y_, Ny = Ny_, Nx = Nx_; '
+                 'std::vector<numpy::index_type> positions; positions.push_back(pdy); positions.push_back(pdx); const numpy::index_type j = 0; '
+                 + srcs['fast_row_n']['slice'] + ' return which ? n : dy; }')
+    if 'rank_currank' in have:
+        s.append('extern "C" long cs_rank_currank(long n, long N2, long rank) { ' + srcs['rank_currank']['slice'] + ' return currank; }')
+    if 'find2d_marks' in have or 'find2d_accesses' in have:
+        # the whole kernel, on arrays whose `at(y, x)` logs (array id, y, x) and stays inside the buffer
+        s.append('static long* f2_log; static long f2_n, f2_cap;')
+        s.append('namespace numpy { template <typename T> struct f2_array { T* p; npy_intp d0, d1; int tag; '
+                 'npy_intp dim(int k) const { return k == 0 ? d0 : d1; } bool is_carray() const { return true; } '
+                 'T* data() const { return p; } '
+                 'T& at(npy_intp y, npy_intp x) const { static T dummy; if (f2_n + 3 <= f2_cap) { f2_log[f2_n] = tag; f2_log[f2_n + 1] = y; f2_log[f2_n + 2] = x; } '
+                 'f2_n += 3; dummy = T(); return (y >= 0 && y < d0 && x >= 0 && x < d1) ? p[y * d1 + x] : dummy; } }; }')
+        s.append('#define aligned_array f2_array')
+        s.append('namespace {')
+        s.append(srcs['find2d_marks' if 'find2d_marks' in have else 'find2d_accesses']['text'])
+        s.append('}')
+        s.append('#undef aligned_array')
+        s.append('extern "C" long cs_find2d(const long* d, long* a, long* t, long* marks, long* log, long cap) { '
+                 'numpy::f2_array<long> A; A.p = a; A.d0 = d[0]; A.d1 = d[1]; A.tag = 0; numpy::f2_array<long> Tg; Tg.p = t; Tg.d0 = d[2]; Tg.d1 = d[3]; Tg.tag = 1; '
+                 'long n = d[0] * d[1]; bool* ob = new bool[n > 0 ? n : 1]; numpy::f2_array<bool> O; O.p = ob; O.d0 = d[0]; O.d1 = d[1]; O.tag = 2; '
+                 'f2_log = log; f2_n = 0; f2_cap = cap; find2d<long>(A, Tg, O); for (long i = 0; i < n; ++i) marks[i] = ob[i] ? 1 : 0; delete[] ob; return f2_n; }')
     if 'at_flat' in have or 'pos_to_flat' in have or 'flat_to_pos' in have:
         s.append('template <typename BaseType> struct cs_array { bool is_carray_; BaseType* data_; int nd; npy_intp dims_[32]; npy_intp strides_[32];')
         s.append('  typedef numpy::position position;')
@@ -229,7 +302,8 @@ def _unit(srcs: dict) -> str:
 # a finding: translation and tie are checked independently of it, the differential only validates the translator
 GROUPS = [['fix_offset'], ['t_abs'], ['subm_elem'], ['margin_of'], ['erode_sub', 'erode_sub_bool'], ['dilate_add', 'dilate_add_bool'],
           ['isLeft'], ['forward_cmp'], ['reverse_cmp'], ['at_flat'], ['pos_to_flat'], ['flat_to_pos'],
-          ['sum_rect', 'csum_rect', 'haar_x', 'haar_y'], ['roll_right', 'lbp_map']]
+          ['sum_rect', 'csum_rect', 'haar_x', 'haar_y'], ['roll_right', 'lbp_map'], ['find2d_marks', 'find2d_accesses'],
+          ['spline_coeff'], ['rank_currank'], ['dt_intersect'], ['fast_positions'], ['uf_find', 'uf_compress', 'uf_join'], ['fast_row_n', 'fast_row_dy']]
 _LIB = {}
 _SRCS = None
 
@@ -281,6 +355,15 @@ def _signed(v: int, dt: str) -> int:
 
 
 def _real_rows(case):
+    try:
+        return _real_rows_(case)
+    except AttributeError as e:
+        # the unit has no shim for this function: its text (or the selected statements) could not be extracted from the
+        # current source — the translator reports that as an untranslatable block; only the differential is skipped
+        return None, f'no stand-alone shim for {case["fn"]} in the compiled unit ({e})'
+
+
+def _real_rows_(case):
     lib, err, srcs = _lib(case['fn'])
     if lib is None:
         return None, 'stand-alone compilation of the extracted text failed: ' + (err or '')
@@ -336,6 +419,64 @@ def _real_rows(case):
         f = getattr(lib, 'cs_' + fn)
         f.restype, f.argtypes = ctypes.c_ulong, [ctypes.c_ulong, ctypes.c_long]
         out = [str(f(v, pts)) for v, pts in case['rows']]
+    elif fn == 'spline_coeff':
+        f = lib.cs_spline_coeff
+        f.restype, f.argtypes = ctypes.c_double, [ctypes.c_long, ctypes.c_double, ctypes.c_double]
+        out = [str(core.f2bits(f(o, core.bits2f(y), core.bits2f(r0)))) for o, y, r0 in case['rows']]
+    elif fn == 'dt_intersect':
+        f = lib.cs_dt_intersect
+        f.restype, f.argtypes = ctypes.c_double, [ctypes.c_double, ctypes.c_long, ctypes.c_double, ctypes.c_long]
+        out = [str(core.f2bits(f(core.bits2f(fq), q, core.bits2f(fv), vk))) for fq, q, fv, vk in case['rows']]
+    elif fn == 'fast_positions':
+        f = lib.cs_fast_positions
+        f.restype = ctypes.c_long
+        for (nx,), dims, bc in case['rows']:
+            n = dims[0] * dims[1]
+            B = (ctypes.c_long * max(1, n))(*bc)
+            O = (ctypes.c_long * (2 * n + 2))()
+            k = f(ctypes.c_long(nx), ctypes.c_long(dims[0]), ctypes.c_long(dims[1]), B, O)
+            out.append(','.join(str(O[i]) for i in range(k)))
+    elif fn in ('uf_find', 'uf_compress', 'uf_join'):
+        f = lib.cs_uf
+        f.restype = ctypes.c_long
+        which = ('uf_find', 'uf_compress', 'uf_join').index(fn)
+        for a, data in case['rows']:
+            n = len(data)
+            D = (ctypes.c_long * max(1, n))(*data)
+            O = (ctypes.c_long * max(1, n))()
+            r = f(which, n, D, ctypes.c_long(a[1]), ctypes.c_long(a[2] if len(a) > 2 else 0), O)
+            arr = ','.join(str(O[k]) for k in range(n))
+            out.append(f'{r};{arr}' if fn == 'uf_find' else arr)
+    elif fn in ('fast_row_dy', 'fast_row_n'):
+        f = lib.cs_fast_row
+        f.restype, f.argtypes = ctypes.c_long, [ctypes.c_long] * 6
+        for row in case['rows']:
+            if fn == 'fast_row_dy':
+                y, ny, pdy, pdx = row
+                out.append(str(f(0, y, ny, 1, pdy, pdx)))
+            else:
+                y, ny, nx, pdy, pdx = row
+                out.append(str(f(1, y, ny, nx, pdy, pdx)))
+    elif fn == 'rank_currank':
+        f = lib.cs_rank_currank
+        f.restype, f.argtypes = ctypes.c_long, [ctypes.c_long] * 3
+        out = [str(f(*row)) for row in case['rows']]
+    elif fn in ('find2d_marks', 'find2d_accesses'):
+        f = lib.cs_find2d
+        f.restype = ctypes.c_long
+        for dims, tdims, adata, tdata in case['rows']:
+            n, nt = dims[0] * dims[1], tdims[0] * tdims[1]
+            cap = 3 * (4 * n * max(1, nt) + 2 * n + 16)
+            D = (ctypes.c_long * 4)(*(list(dims) + list(tdims)))
+            A = (ctypes.c_long * max(1, n))(*adata)
+            Tg = (ctypes.c_long * max(1, nt))(*tdata)
+            M = (ctypes.c_long * max(1, n))()
+            L = (ctypes.c_long * cap)()
+            k = f(D, A, Tg, M, L, cap)
+            if fn == 'find2d_marks':
+                out.append(';'.join(f'{i // dims[1]},{i % dims[1]}' for i in range(n) if M[i]))
+            else:
+                out.append(';'.join(f'{L[i]},{L[i + 1]},{L[i + 2]}' for i in range(0, min(k, cap), 3)) + ('' if k <= cap else ';overflow'))
     elif fn == 'flat_to_pos':
         f = lib.cs_flat_to_pos
         f.restype = None
@@ -366,6 +507,14 @@ def _lines(case):
         return [f'{pre} l0={core.fmt_ints(d)} l1={core.fmt_ints(p)}' for d, p in case['rows']]
     if fn in ('sum_rect', 'csum_rect', 'haar_x', 'haar_y', 'flat_to_pos'):
         return [f'{pre} a={core.fmt_ints(a)} l0={core.fmt_ints(d)}' for a, d in case['rows']]
+    if fn in ('uf_find', 'uf_compress', 'uf_join'):
+        return [f'{pre} a={core.fmt_ints(a)} l0={core.fmt_ints(d)}' for a, d in case['rows']]
+    if fn == 'fast_positions':
+        return [f'{pre} a={core.fmt_ints(a)} l0={core.fmt_ints(d)} l1={core.fmt_ints(bc)}' for a, d, bc in case['rows']]
+    if fn == 'find2d_marks':
+        return [f'{pre} l0={core.fmt_ints(d)} l1={core.fmt_ints(td)} l2={core.fmt_ints(a)} l3={core.fmt_ints(t)}' for d, td, a, t in case['rows']]
+    if fn == 'find2d_accesses':
+        return [f'{pre} l0={core.fmt_ints(d)} l1={core.fmt_ints(td)}' for d, td, a, t in case['rows']]
     if fn == 'at_flat':
         return [f'{pre} a={core.fmt_ints(a)} l0={core.fmt_ints(d)} l1={core.fmt_ints(st)}' for a, d, st in case['rows']]
     return [f'{pre} a={core.fmt_ints(r)}' for r in case['rows']]
@@ -558,7 +707,127 @@ def _cases_flat_to_pos(rng, tier):
     return [dict(fn='flat_to_pos', rows=ch, src='random') for ch in _chunks(rows, 1000)]
 
 
+def _cases_find2d(fn, rng, tier):
+    """images up to 6 x 6 over a two-letter alphabet with planted copies of the template; templates with 0 … N+2 rows / columns
+    (empty, fitting exactly, larger than the image); `find2d_accesses` runs on constant data (no comparison ever fails: the
+    compiled kernel then performs the longest trace, the one the generated definition lists)"""
+    rows = []
+    for _ in range(dict(quick=400, thorough=8000, search=3000)[tier]):
+        n0, n1 = rng.randint(0, 6), rng.randint(0, 6)
+        t0 = rng.choice([0, 1, 1, 2, 2, 3, n0, n0 + 1, n0 + 2])
+        t1 = rng.choice([0, 1, 1, 2, 2, 3, n1, n1 + 1, n1 + 2])
+        if fn == 'find2d_accesses':
+            rows.append([[n0, n1], [t0, t1], [0] * (n0 * n1), [0] * (t0 * t1)])
+            continue
+        t = [rng.randint(0, 1) for _ in range(t0 * t1)]
+        a = [rng.randint(0, 1) if rng.random() < 0.6 else 0 for _ in range(n0 * n1)]
+        for _ in range(rng.randint(0, 3)):                  # plant copies (possibly overlapping / cut by the border)
+            if n0 and n1:
+                y, x = rng.randint(0, n0 - 1), rng.randint(0, n1 - 1)
+                for sy in range(t0):
+                    for sx in range(t1):
+                        if y + sy < n0 and x + sx < n1:
+                            a[(y + sy) * n1 + x + sx] = t[sy * t1 + sx]
+        rows.append([[n0, n1], [t0, t1], a, t])
+    return [dict(fn=fn, rows=ch, src='random') for ch in _chunks(rows, 400)]
+
+
+def _cases_spline(rng, tier):
+    """orders 0 … 7 (0, 6, 7 have no case: `result[hh]` keeps its value) x distances at, one ulp below and one ulp above every
+    threshold of the piecewise polynomials, small multiples of 1/8, and random distances in [0, 4)"""
+    import math
+    ys = [0.0]
+    for t in (0.5, 1.0, 1.5, 2.0, 2.5, 3.0):
+        ys += [t, math.nextafter(t, 0.0), math.nextafter(t, 9.0)]
+    ys += [k / 8 for k in range(0, 33)]
+    for _ in range(dict(quick=300, thorough=6000, search=2000)[tier]):
+        ys.append(rng.random() * 4)
+        ys.append(rng.choice([0.5, 1.0, 1.5, 2.0, 2.5, 3.0]) + (rng.random() - 0.5) * 2.0 ** -rng.randint(10, 50))
+    rows = [[o, core.f2bits(y), core.f2bits(rng.choice([0.0, 7.25, -1.5]))] for o in range(0, 8) for y in ys]
+    return [dict(fn='spline_coeff', rows=ch, src='boundary') for ch in _chunks(rows, 2000)]
+
+
+def _cases_dt(rng, tier):
+    """roots 0 <= v[k] < q < 5000 with sample values that are integers, halves, the finite `infinity` fill values of distance.py
+    and large doubles (the quotient is then rounded: the order of the two divisions is observable)"""
+    rows = []
+    for _ in range(dict(quick=1500, thorough=30000, search=8000)[tier]):
+        q = rng.choice([rng.randint(1, 12), rng.randint(1, 4999)])
+        vk = rng.randint(0, q - 1)
+        val = lambda: rng.choice([0.0, float(rng.randint(0, 50)), float(rng.randint(0, 10 ** 7)), rng.randint(0, 99) / 2, 1e12 + rng.randint(0, 999),
+                                  rng.random() * 1e6, float(2 ** 31 + rng.randint(0, 99))])
+        rows.append([core.f2bits(val()), q, core.f2bits(val()), vk])
+    return [dict(fn='dt_intersect', rows=ch, src='random') for ch in _chunks(rows, 1500)]
+
+
+def _cases_fastpos(rng, tier):
+    """structuring elements 0 … 7 x 0 … 9 (wider than the image: the clamps act), images with 0, 1, 2, 3 and more columns"""
+    rows = []
+    for _ in range(dict(quick=1200, thorough=20000, search=6000)[tier]):
+        by, bx = rng.randint(0, 7), rng.choice([rng.randint(0, 9), rng.randint(5, 9)])
+        nx = rng.choice([0, 1, 1, 2, 2, 3, 4, rng.randint(1, 12)])
+        p = rng.choice([0.2, 0.6, 1.0])
+        rows.append([[nx], [by, bx], [int(rng.random() < p) for _ in range(by * bx)]])
+    return [dict(fn='fast_positions', rows=ch, src='random') for ch in _chunks(rows, 1200)]
+
+
+def _cases_uf(rng, tier):
+    """random parent forests (every chain ends in a root; node numbers permuted; background entries -1 that nothing points to),
+    long chains included; find / compress from every kind of node, join of two foreground nodes; fuel = N + 1 as in the model"""
+    out = {k: [] for k in ('uf_find', 'uf_compress', 'uf_join')}
+    for _ in range(dict(quick=600, thorough=12000, search=4000)[tier]):
+        n = rng.choice([1, 2, 3, rng.randint(1, 12), rng.randint(1, 40)])
+        perm = list(range(n))
+        rng.shuffle(perm)
+        bg = [rng.random() < 0.25 for _ in range(n)]
+        if all(bg):
+            bg[0] = False
+        fg = [k for k in range(n) if not bg[k]]
+        style = rng.choice(['chain', 'random', 'flat'])
+        par = [-1] * n
+        for idx, k in enumerate(fg):
+            if idx == 0 or (style != 'chain' and rng.random() < 0.2):
+                p = k
+            else:
+                p = fg[idx - 1] if style == 'chain' else (fg[0] if style == 'flat' else rng.choice(fg[:idx]))
+            par[perm[k]] = perm[p]
+        nodes = [perm[k] for k in fg]
+        i, j = rng.choice(nodes), rng.choice(nodes)
+        out['uf_find'].append([[n + 1, i], par])
+        out['uf_compress'].append([[n + 1, i], par])
+        out['uf_join'].append([[n + 1, i, j], par])
+    return [dict(fn=k, rows=ch, src='random') for k, rows in out.items() for ch in _chunks(rows, 600)]
+
+
+def _cases_fastrow(rng, tier):
+    """every row of images up to 6 rows x every offset -8 … 8 (beyond the image on both sides), widths 0 … 9"""
+    r1 = [[y, ny, dy, dx] for ny in range(1, 7) for y in range(ny) for dy in range(-8, 9) for dx in (-2, 0, 3)]
+    r2 = [[0, 1, nx, 0, dx] for nx in range(0, 10) for dx in range(-11, 12)]
+    for _ in range(300):
+        ny = rng.randint(1, 10 ** 6)
+        r1.append([rng.randint(0, ny - 1), ny, rng.randint(-2 * ny, 2 * ny), rng.randint(-5, 5)])
+        r2.append([0, 1, rng.randint(0, 10 ** 6), 0, rng.randint(-10 ** 6, 10 ** 6)])
+    return [dict(fn='fast_row_dy', rows=r1, src='exhaustive'), dict(fn='fast_row_n', rows=r2, src='exhaustive')]
+
+
+def _cases_currank(rng, tier):
+    """every (n, N2, rank) with rank < N2 <= 12, n <= N2; random footprints up to 2^20 samples (n * rank below 2^53)"""
+    rows = [[n, n2, r] for n2 in range(1, 13) for n in range(0, n2 + 1) for r in range(0, n2)]
+    for _ in range(dict(quick=1000, thorough=20000, search=6000)[tier]):
+        n2 = rng.choice([rng.randint(1, 200), rng.randint(1, 2 ** 20)])
+        rows.append([rng.randint(0, n2), n2, rng.randint(0, n2 - 1)])
+    return [dict(fn='rank_currank', rows=ch, src='boundary') for ch in _chunks(rows, 2000)]
+
+
 GENERATORS = {
+    'spline_coeff': _cases_spline,
+    'rank_currank': _cases_currank,
+    'fast_row': _cases_fastrow,
+    'union_find': _cases_uf,
+    'fast_positions': _cases_fastpos,
+    'dt_intersect': _cases_dt,
+    'find2d_marks': lambda rng, tier: _cases_find2d('find2d_marks', rng, tier),
+    'find2d_accesses': lambda rng, tier: _cases_find2d('find2d_accesses', rng, tier),
     'flat_to_pos': _cases_flat_to_pos,
     'lbp_map': _cases_lbp,
     'surf_rect': _cases_surf,
